@@ -49,6 +49,20 @@ class Job:
 
 def render(path, params):
     s = open(path).read()
+    # conditional blocks:  //IF Name ... //ENDIF   (kept when params[Name] is truthy)
+    out, keep = [], [True]
+    for line in s.split("\n"):
+        m = re.match(r"\s*//IF (!?)(\w+)\s*$", line)
+        if m:
+            val = bool(params.get(m.group(2)))
+            keep.append(keep[-1] and (not val if m.group(1) else val))
+            continue
+        if re.match(r"\s*//ENDIF\s*$", line):
+            keep.pop()
+            continue
+        if keep[-1]:
+            out.append(line)
+    s = "\n".join(out)
     for k, v in params.items():
         s = s.replace("{{." + k + "}}", str(v))
     m = re.search(r"\{\{\.(\w+)\}\}", s)
